@@ -87,14 +87,15 @@ def gen_report(rep, results):
         if r.rc != 0 or lines != r.distinct or lines == 0:
             rep.broken.append('%s: rc=%s, %d states, %d lines' % (name, r.rc, r.distinct, lines))
 
-def execute(rep, exe, cases, w, expect_cases=None):
+def execute(rep, exe, cases, w, expect_cases=None, build='default'):
     """Run the driver over a case file; classify mismatches.  Returns number of mismatches."""
     mis = w + '/mismatch.ndjson'
     d = lib.run_driver(exe, ['run', cases, mis], timeout=800)
     if d['rc'] != 0:
-        rep.violation('driver-failure', dict(rc=d['rc'], stderr=d['stderr'].decode(errors='replace')[-3000:]))
+        rep.violation('driver-failure', dict(build=build, rc=d['rc'], stderr=d['stderr'].decode(errors='replace')[-3000:]))
         return -1
     info = json.loads(d['stdout'].decode().strip().splitlines()[-1])
+    info['build'] = build
     rep.cov['driver_runs'].append(info)
     if expect_cases is not None and info['cases'] != expect_cases:
         rep.broken.append('driver executed %d of %d emitted cases' % (info['cases'], expect_cases))
@@ -125,7 +126,7 @@ def execute(rep, exe, cases, w, expect_cases=None):
                     perkind[k] += 1
                     n += 1
                     if perkind[k] <= 200:
-                        det = dict(message='%s %s' % (m['rd'], text_of(cs['lit'])), reader=m['rd'], what=m['what'], observed_limbs=m['obs'], expected_limbs=m['exp'],
+                        det = dict(build=build, message='%s %s' % (m['rd'], text_of(cs['lit'])), reader=m['rd'], what=m['what'], observed_limbs=m['obs'], expected_limbs=m['exp'],
                                    errors=m['errs'], reader_returned=m['ret'])
                         if perkind[k] <= 25:
                             det['case'] = cs
@@ -171,6 +172,9 @@ def run(pid, tier):
                 if len(seen) >= 8:
                     break
         execute(rep, exe, cases, w, total)
+        # the selection of the conversion functions depends on the build: the custom-formatter build and strict ISO C
+        for cfg in ('dtostre', 'iso'):
+            execute(rep, lib.build('drv_numeric', ['drv_numeric.c'], config=cfg), cases, w, total, build=cfg)
     rep.cov['exhaustive'] = True
     rep.cov['explanation'] = ('exhaustive over every sign / point / exponent / white-space placement with the listed digit strings, every unit-table row x 4 letter cases x separators, '
                               'every special mnemonic form, nondecimal literals of every digit count; the specification lemmas are exhaustive within their string / shape / width bounds; sampled beyond (long digit runs)')
